@@ -20,6 +20,8 @@ def check(ctx, rep):
     B.rule_run_exit(m, rep, flag)
     B.rule_same_sender(m, rep)
     A.rule_loop(m, rep, 'R3loop', liveness=True)
+    # whatever the wrapped sink answers, the task hands the metric over once and comes back (no retry loop)
+    A.rule_task_closure(m, rep, 'R3loop', parts=('once',))
     B.rule_release(m, rep)
     B.rule_drop_nonblocking(m, rep)
     B.rule_handle_drop(m, rep, 'R5h')
